@@ -44,6 +44,15 @@ def p_field(x):
                 return 'after reading the names of the field, alternative %r reports names %r' % (str(alt), sorted(alt.names))
     if sorted(r.names) != G.names(f) or _deps.rel_tree(r) != G.tree(f) or str(r) != canonical:
         return 'reading names changes the parsed field %r' % text
+    # the documented second form of the argument, a list of strings (one per group) - and any other iterable of them
+    parts = [str(g) for g in r.relationships]
+    for how, arg in (('a list of strings', list(parts)), ('a tuple', tuple(parts)), ('an iterator', iter(list(parts))), ('a generator', (x for x in parts))):
+        try:
+            ra = deps.parse_depends(arg)
+        except Exception as e:  # noqa
+            return 'parse_depends(%s of the groups of %r) raises %s' % (how, text, type(e).__name__)
+        if _deps.rel_tree(ra) != G.tree(f) or ra != r:
+            return 'parse_depends(%s of the groups of %r) = %r' % (how, text, _deps.rel_tree(ra))
     # copies of the parsed field are the field: same structure, same spelling, equal; iterating it yields its members
     import copy
     import pickle
